@@ -265,6 +265,54 @@ def main(argv):
                             if outcome == "illegal" or wire_key != want:
                                 ctx.violation("a legal key was rejected or not transmitted as exactly prefix + encoded key (after an earlier call on the same object)",
                                               dict(case, wire_key=None if wire_key is None else hx(wire_key), want=hx(want)), tags=tags + ["wire-key"])
+    # ---- a HashClient with no server in rotation (none configured, or the only one declared dead): an illegal key is still reported as
+    #      MemcacheIllegalInputError - not as "all servers down", not as a miss under ignore_exc ---------------------------------------------
+    import pymemcache.client.hash as hash_mod
+    bad_keys = [b"two words", "tab\tkey", b"nul\x00", b"k" * 251, "é", b"\r\n", b"a\nb"]        # (str / bytes keys: the (server_key, key) pair form is outside the property's quantifier)
+    for ign in (False, True):
+        for how in ("no-servers", "only-server-dead"):
+            for cname in ("get", "gets", "set", "add", "delete", "incr", "touch", "get_many", "gets_many", "set_many", "delete_many"):
+                for key in bad_keys:
+                    world.conns.clear()
+                    world.tag = ("noserver", cname)
+                    if how == "no-servers":
+                        hc = HashClient([], socket_module=sm, ignore_exc=ign, key_prefix=b"ns:")
+                    else:
+                        hc = HashClient([("h", 1)], socket_module=sm, ignore_exc=True, key_prefix=b"ns:", retry_attempts=0, dead_timeout=10 ** 6)
+                        world.refuse_addrs = {("h", 1)}
+                        try:
+                            hc.get("probe")
+                        except Exception:
+                            pass
+                        world.refuse_addrs = set()
+                        hc.ignore_exc = ign
+                        if hc.hasher.nodes:
+                            continue          # (the harness could not take the server out of rotation)
+                    nbefore = sum(len(c.sent) for c in world.conns)
+                    try:
+                        if cname in ("get_many", "gets_many", "delete_many"):
+                            getattr(hc, cname)([key])        # (alone: with a legal key in front, "all servers down" for that key comes first, legitimately)
+                        elif cname == "set_many":
+                            hc.set_many({key: b"v"})
+                        elif cname in ("set", "add"):
+                            getattr(hc, cname)(key, b"v")
+                        elif cname == "incr":
+                            hc.incr(key, 1)
+                        elif cname == "touch":
+                            hc.touch(key, 1)
+                        else:
+                            getattr(hc, cname)(key)
+                        outcome = "returned"
+                    except MemcacheIllegalInputError:
+                        outcome = "illegal"
+                    except Exception as e:
+                        outcome = "exc:" + type(e).__name__
+                    case = {"class": "HashClient", "rotation": how, "command": cname, "ignore_exc": ign, "key": repr(key)[:40], "outcome": outcome}
+                    ctx.case(("noserver", how, cname, ign, repr(key)))
+                    ctx.count("no-server-in-rotation")
+                    if outcome != "illegal":
+                        ctx.violation("an illegal key was not rejected with MemcacheIllegalInputError by a HashClient that has no server in rotation", case,
+                                      tags=["HashClient", "no-server", "not-rejected"] + (["ignore_exc"] if ign else []))
     if ctx.lean.build_ok:
         for (case, real), m in zip(reals, ctx.driver.batch(lines)):
             if m != real:
